@@ -562,9 +562,31 @@ Proof.
   intros Hw Hs Hp. unfold chk_C01. rewrite (chk_C01_gate_model cfg ep h Hw), (chk_C06_on_model cfg Hs Hp ep h), (chk_C07_on_model cfg Hp Hs ep h). reflexivity.
 Qed.
 
+Lemma no_chandata_of_todata acts : todata acts = [] ->
+  forallb (fun a => match a with ChanDataOut _ _ _ => false | _ => true end) acts = true.
+Proof.
+  unfold todata. induction acts as [|a l IH]; [reflexivity|]. cbn [filter forallb].
+  destruct a; cbn; try discriminate; exact IH.
+Qed.
+Lemma chk_C08_emit_step_model cfg s e s' acts : inv cfg s -> step cfg s e = (s', acts) ->
+  chk_C08_emit_step (listing_of s) {| os_ev := e; os_acts := acts; os_allocs := listing_of s' |} = true.
+Proof.
+  intros _ Hs. unfold chk_C08_emit_step. cbn [os_ev os_acts].
+  destruct e as [src tid c rq unk|src p dat|src n dat|relay from dat|dt|relay|csrc| |];
+    try (apply no_chandata_of_todata; apply (todata_nil_of _ _ _ _ _ Hs I)).
+  cbn [step] in Hs. apply h_peer_spec in Hs as [_ [->|(a & Hf & _ & _ & [(c & Hc & ->)|(_ & pm & Hp & ->)])]]; [reflexivity| |reflexivity].
+  cbn [forallb]. rewrite listing_of_map, find_orelay_listing, Hf. cbn [option_map].
+  unfold has_chan, obs_of. cbn [oa_chans]. rewrite (find_chan_peer_has _ _ _ Hc). reflexivity.
+Qed.
+Theorem chk_C08_emit_model cfg ep h : chk_C08_emit (model_case cfg ep h) = true.
+Proof.
+  unfold chk_C08_emit, model_case. cbn [rc_steps].
+  apply (all_steps_model cfg chk_C08_emit_step (chk_C08_emit_step_model cfg) h (init ep)). apply inv_init.
+Qed.
+
 Theorem chk_C08_full_model cfg ep h : cfg_seconds cfg -> cfg_positive cfg -> chk_C08 (model_case cfg ep h) = true.
 Proof.
-  intros Hs Hp. unfold chk_C08. rewrite (chk_C08_bij_model cfg ep h), (chk_C07_on_model cfg Hp Hs ep h). reflexivity.
+  intros Hs Hp. unfold chk_C08. rewrite (chk_C08_bij_model cfg ep h), (chk_C07_on_model cfg Hp Hs ep h), (chk_C08_emit_model cfg ep h). reflexivity.
 Qed.
 
 Theorem chk_C02_full_model cfg ep h : cfg_seconds cfg -> cfg_positive cfg -> chk_C02 (model_case cfg ep h) = true.
